@@ -66,6 +66,7 @@ def run(repo, rep, tier):
     r6 = rep.rule('C09.R6', 'per-compile parser state is re-initialised by every '
                   'entry point or reset in a finally')
     _r9_cache_after_commit(repo, rep)
+    _r10_reported_file_is_opened_file(repo, rep)
     mod = repo.module(MOF)
     mc = repo.cls(MOF, 'MOFCompiler')
     actions = [f for n, f in mod.functions.items()
@@ -777,3 +778,51 @@ def _r9_cache_after_commit(repo, rep):
     if r9.sites < 3:
         raise AnalysisError('C09.R9: only %d mirror updates found'
                             % r9.sites)
+
+
+def _r10_reported_file_is_opened_file(repo, rep):
+    """C09.R10: compile_file() compiles the text of the file it opened under
+    that file's name.  The name is what MOFCompileError.file reports and
+    what relative `#pragma include` paths are resolved against; when the
+    file was located through the search path, handing on the requested
+    (non-existing) name makes error positions point into a file that does
+    not exist and valid nested includes fail with OSError."""
+    r10 = rep.rule('C09.R10', 'compile_file() reports the name of the file it '
+                   'opened')
+    mc = repo.cls(MOF, 'MOFCompiler')
+    f = mc.methods.get('compile_file')
+    if f is None:
+        raise AnalysisError('MOFCompiler.compile_file vanished')
+    r10.functions.add(f.fq)
+    opens = [c for c in walk_no_nested(f.node) if isinstance(c, ast.Call) and
+             dotted(c.func) in ('open', 'io.open', 'codecs.open') and c.args]
+    comp = [c for c in walk_no_nested(f.node) if isinstance(c, ast.Call) and
+            dotted(c.func) == 'self.compile_string']
+    if len(opens) != 1 or len(comp) != 1:
+        raise AnalysisError('compile_file: open()/compile_string() calls not '
+                            'found (%d/%d)' % (len(opens), len(comp)))
+    cs = mc.methods.get('compile_string')
+    ps = [p for p in cs.params if p != 'self']
+    given = None
+    for k in comp[0].keywords:
+        if k.arg == 'filename':
+            given = k.value
+    if given is None and 'filename' in ps and \
+            ps.index('filename') < len(comp[0].args):
+        given = comp[0].args[ps.index('filename')]
+    r10.sites += 1
+    ok = given is not None and norm(given) == norm(opens[0].args[0])
+    r10.ob(ok, 'compile_file', {'opened': norm(opens[0].args[0]),
+                                'reported': norm(given) if given is not None
+                                else None})
+    if not ok:
+        rep.finding(r10, f.qualname, norm(comp[0], 80), 'other-file-name',
+                    MOF, comp[0].lineno,
+                    'the text read from %s is compiled under the name %s: '
+                    'when the file was found through the search path, '
+                    'MOFCompileError.file / lineno / column no longer point '
+                    'into the offending input and relative includes of the '
+                    'located file are resolved against the wrong directory '
+                    '(OSError although no file is missing)'
+                    % (norm(opens[0].args[0]),
+                       norm(given) if given is not None else '(none)'))
